@@ -74,6 +74,18 @@ class Xq9BadRepr(Exception):
         raise RuntimeError('Zq7_marker_repr_failed')
 
 
+class Xq9MissingUser(KeyError):
+    pass
+
+
+# exception groups (what a TaskGroup raises), also when their only member is a protocol error: a group is an arbitrary exception
+BUILTIN_EXC.update({
+    'GroupOfOneRpcError': lambda m: ExceptionGroup(m, [pjrpc.exceptions.JsonRpcError(code=4290, message='quota', data='Zq7_marker_g')]),
+    'NestedGroupOfOneRpcError': lambda m: ExceptionGroup(m, [ExceptionGroup('inner', [pjrpc.exceptions.MethodNotFoundError()])]),
+    'GroupOfTwo': lambda m: ExceptionGroup(m, [ValueError('a'), pjrpc.exceptions.JsonRpcError(code=4291, message='x')]),
+    'KeyErrorSubclass': lambda m: Xq9MissingUser(m),
+})
+
 # exceptions without a message, with an empty / multi-line / unprintable rendering
 BUILTIN_EXC.update({
     'ValueErrorEmpty': lambda m: ValueError(), 'KeyErrorEmpty': lambda m: KeyError(), 'AssertionErrorEmpty': lambda m: AssertionError(),
@@ -295,6 +307,14 @@ def make_methods(log: Log, is_async: bool) -> Dict[str, Callable[..., Any]]:
 
     fac['js_draft4'] = js_draft4
 
+    @shared_validator.validate(schema={'type': 'object', 'properties': {'items': {'type': 'array', 'items': {'type': 'string'}}},
+                                       'required': ['items']})
+    def js_list(items):
+        log.calls.append(('js_list', (items,), {}))
+        return ['js_list', list(items)]
+
+    fac['js_list'] = js_list
+
     def window(items, start=0, stop=3, step=1):
         # several optional parameters: a by-name call may skip any of them
         log.calls.append(('window', (items, start, stop, step), {}))
@@ -348,6 +368,25 @@ def make_methods(log: Log, is_async: bool) -> Dict[str, Callable[..., Any]]:
     # (this module postpones its annotations: the real annotation object is attached by hand)
     pd_pos.__annotations__ = {'n': _t.Annotated[int, _pd.Field(gt=0)]}
     fac['pd_pos'] = pd_validator.validate(pd_pos)
+
+    def pd_even(n):
+        log.calls.append(('pd_even', (n,), {}))
+        return ['pd_even', n]
+
+    def _even(v):
+        if v % 2:
+            raise ValueError('Zq7_marker_odd')        # (the exception object ends up in pydantic's error context)
+        return v
+
+    pd_even.__annotations__ = {'n': _t.Annotated[int, _pd.AfterValidator(_even)]}
+    fac['pd_even'] = pd_validator.validate(pd_even)
+
+    def pd_kw(a, **kw):
+        # variadic keywords under the pydantic validator (only used by C13's used-vs-fresh comparison)
+        log.calls.append(('pd_kw', (a,), dict(kw)))
+        return ['pd_kw', a, sorted(kw)]
+
+    fac['pd_kw'] = pd_validator.validate(pd_kw)
 
     def pd_strip(s):
         log.calls.append(('pd_strip', (s,), {}))
@@ -503,7 +542,7 @@ def make_broken_view(log: Log, is_async: bool):
 
 METHOD_NAMES = ('js_checked', 'js_loose', 'slowfail', 'byid', 'wrapped', 'whoami', 'ctxp', 'slow', 'fac1', 'fac2', 'ok', 'noargs', 'echo', 'kwonly', 'rpcerr', 'typed', 'boom', 'ctxm', 'view.vm', 'typedctor', 'raiselib', 'pd_pos', '_under',
                 'ns._dotted', 'cowrapped', 'js_draft4', 'window', 'mutate', 'broken.vm', 'odd_defaults', 'tc_only',
-                'pd_strip', 'view.cm', 'view.sm', 'cnt.bump')
+                'pd_strip', 'view.cm', 'view.sm', 'cnt.bump', 'pd_even', 'js_list', 'ctxm_plain')
 
 
 def build_registry(log: Log, coroutines: bool) -> 'pjrpc.server.MethodRegistry':
@@ -512,6 +551,9 @@ def build_registry(log: Log, coroutines: bool) -> 'pjrpc.server.MethodRegistry':
     for name, fn in make_methods(log, coroutines).items():
         if name in ('ctxm', 'whoami'):
             registry.add(fn, name, context='ctx')
+            if name == 'ctxm':
+                # the very same function object once more, WITHOUT a context designation: there `ctx` is an ordinary parameter
+                registry.add(fn, 'ctxm_plain')
         elif name == 'ctxp':
             registry.add(fn, name, context='ctx', positional=True)
         else:
